@@ -254,8 +254,8 @@ def r4(ctx, prog):
         raise AnalysisBroken('expected >=7 Deserializer readers, found %d' % n)
     sp = prog.fn1(DES + '::set_pos')
     w = q.writes(sp, 'Deserializer::pos_')
-    ok = bool(w) and all(any(any(x.endswith('size_') for x in q.subtree_fields(sp, c)) and f_.s(f_.strip_casts(c)).get('op') == '<' and k == 0
-                             for c, k, b in sp.cfg.controlling_branches(q.pt(sp, x_)) for f_ in [sp]) for x_ in w)
+    ok = bool(w) and all(any(q.edge_says(sp, c, k, lambda l: l == sp.params[0]['n'], ('<', '<='), lambda r: r.endswith('size_'))
+                             for c, k, b in sp.cfg.controlling_branches(q.pt(sp, x_))) for x_ in w)
     ctx.ob('C15.R4', '%s|range' % sp.name, ok, 'set_pos only accepts pos < size_', where=sp.loc(sp.body))
 
 
